@@ -748,6 +748,8 @@ func (in *Interp) callBuiltin(b *ssa.Builtin, args []Value, c *ssa.CallCommon) V
 		return nil
 	case "recover":
 		return Iface{}
+	case "ssa:deferstack":
+		return nil
 	case "ssa:wrapnilchk":
 		if p, ok := args[0].(*Value); ok && p == nil {
 			in.goPanicf("value method called using nil pointer")
